@@ -35,7 +35,23 @@ BigExp == LET s == Finish(st[4]) IN
              \E j \in (s.toks[i].s + 1)..(s.toks[i].e - 3) :
                  bytes[j] \in {101, 69}
 
-EmitInv == EmitCases => PrintT(ToJson(<<bytes, <<Code(1), Code(2), Code(3), Code(4)>>, BigExp>>))
+\* The search stops at the first dead byte, so an implementation that wrongly keeps going
+\* after it would never be asked about a text it could then accept.  Every string on that
+\* frontier is therefore also emitted completed by the closers of whatever was open when it
+\* died (verdict recomputed from scratch): still invalid by the specification.
+Closers(s) ==
+    LET q == IF s.lx \in {"str", "esc", "hex", "u8"} THEN <<34>> ELSE <<>>
+        fs == Append(s.stack, s.fr)
+        n == Len(fs) IN
+    q \o [i \in 1..(n - 1) |-> IF fs[n + 1 - i].t = "o" THEN 125 ELSE 93]
+
+CodeOfBytes(i, b) == LET s == Finish(Run(OptAt(i), b)) IN
+                     IF s.dead THEN 0 ELSE IF ~AtBoundary(s) THEN 1 ELSE IF TopN(s) = 1 THEN 3 ELSE 2
+
+EmitInv == EmitCases =>
+    /\ PrintT(ToJson(<<bytes, <<Code(1), Code(2), Code(3), Code(4)>>, BigExp>>))
+    /\ AllDead => LET c == bytes \o Closers(st[4]) IN
+                  PrintT(ToJson(<<c, <<CodeOfBytes(1, c), CodeOfBytes(2, c), CodeOfBytes(3, c), CodeOfBytes(4, c)>>, BigExp>>))
 
 \* the automaton and the grammar agree (two independent formulations)
 TwinInv == CheckTwin => \A i \in 1..4 :
